@@ -11,6 +11,8 @@ The H2 hook (eval_enter/eval_exit, pending captured messages) and read-only walk
 state (context stack depth, wip flags, todo lists) are recorded as suspects in the replay file; the
 verdict always comes from the behaviour.
 """
+import itertools
+
 from vp import plugins, realbooks, wb, wbgen
 from vp.core import h64
 
@@ -98,6 +100,9 @@ def wrap(formula, kind, tag):
     body = formula[1:]
     if kind == 'nosuch':
         return f'=NOSUCH({body})'
+    if kind == 'nosuch-braces':
+        # (text with the characters str.format() reads: the code of the formula is quoted in the error message)
+        return f'=NOSUCH({body},"{{a}} {{0}} {{")'
     if kind == 'nosuch-constant':
         return f'=TAU({body})'             # no such function, but python's math module has a constant of that name
     if kind == 'nosuch-keyword':
@@ -546,18 +551,25 @@ def reference_case(ctx):
     install()
     for mode in ('plain', 'iterative'):
         for kind in ('nosuch', 'failk-always'):
-            for ref in ('=OFFSET(A1,0,0)', '=INDIRECT("A1")'):
+            for ref, shape in itertools.product(('=OFFSET(A1,0,0)', '=INDIRECT("A1")'), ('direct', 'below-a-range')):
                 bad = '=NOSUCH(1)' if kind == 'nosuch' else '=FAILK("r",0,1)'
-                spec = {'sheets': [['Sheet1', {'A1': bad, 'B1': ref, 'C1': '=B1+1', 'D1': '=E1*2', 'E1': 5}]],
+                cells = {'A1': bad, 'B1': ref, 'C1': '=B1+1', 'D1': '=E1*2', 'E1': 5}
+                fix_at, fixed = 'Sheet1!A1', 2
+                if shape == 'below-a-range':
+                    # the cell referred to reads the failing cell through a range: the failure arrives while the
+                    # graph below the reference is being built, not while a formula runs
+                    cells.update({'A1': '=SUM(F1:F3)-6', 'F1': 1, 'F2': bad, 'F3': 5})
+                    fix_at = 'Sheet1!F2'
+                spec = {'sheets': [['Sheet1', cells]],
                         'names': {}, 'arrays': [],
                         'calc': {'iterate': True, 'count': 50, 'delta': 1e-6} if mode == 'iterative' else None}
-                case = {'kind': 'reference-cell', 'mode': mode, 'fault': kind, 'ref': ref}
+                case = {'kind': 'reference-cell', 'mode': mode, 'fault': kind, 'ref': ref, 'shape': shape}
                 comp = wb.compile_mem(spec, plugins='vp.plugins')
                 plugins.reset()
                 ctx.count('cases')
                 ctx.count('directed:failing-cell-under-reference-valued-cell')
-                ctx.case(('reference-cell', mode, kind, ref))
-                key = f'{mode}/{kind}/under-reference-valued-cell'
+                ctx.case(('reference-cell', mode, kind, ref, shape))
+                key = f'{mode}/{kind}/under-reference-valued-cell' + ('' if shape == 'direct' else '/below-a-range')
                 r = call(comp.evaluate, 'Sheet1!C1')
                 if r[0] != 'pycel':
                     ctx.violation(f'first-failure-is-not-a-pycel-error/{key}', f'evaluate(C1) gives {r!r} ({ref})', case)
@@ -579,7 +591,7 @@ def reference_case(ctx):
                 if r != ('v', 10):
                     ctx.violation(f'unrelated-cell-differs/{key}', f'evaluate(D1) = {r!r}, expected 10', case)
                     continue
-                comp.set_value('Sheet1!A1', 2)
+                comp.set_value(fix_at, fixed)
                 ctx.count('repairs')
                 if ref.startswith('=INDIRECT') and mode == 'plain':
                     # (a reference given as text is no precedent in pycel's graph: B1 is only followed when iterating)
@@ -589,7 +601,7 @@ def reference_case(ctx):
                     ctx.count('repair_compares')
                     if r != ('v', want):
                         ctx.violation(f'after-repair-differs/dependant/{key}',
-                                      f'after set_value(A1, 2) evaluate({target!r}) = {r!r}, expected {want} ({ref})', case)
+                                      f'after set_value({fix_at}, 2) evaluate({target!r}) = {r!r}, expected {want} ({ref})', case)
                         break
 
 
@@ -679,7 +691,7 @@ def _unbounded_one(ctx, mode, kind, single):
 
 def run(ctx):
     rng = ctx.rng
-    kinds = ['nosuch', 'failk-always', 'failk-once', 'nosuch-keyword', 'failname', 'nosuch-constant']
+    kinds = ['nosuch', 'failk-always', 'failk-once', 'nosuch-keyword', 'failname', 'nosuch-constant', 'nosuch-braces']
     if ctx.shard == 0:
         unbounded_case(ctx)
         same_value_case(ctx)
